@@ -395,7 +395,12 @@ pub fn derive_from_untyped_inner(input: DeriveInput) -> Result<TokenStream> {
 
 			impl #impl_generics FromUntyped for #ident #ty_generics #where_clause {
 				fn from_untyped(value: Val) -> JrResult<Self> {
-					let obj = value.as_obj().expect("shape is correct");
+					let Some(obj) = value.as_obj() else {
+						return Err(ErrorKind::RuntimeError(
+							format!("expected object, got {}", value.value_type()).into(),
+						)
+						.into());
+					};
 					Self::parse(&obj)
 				}
 			}
